@@ -53,7 +53,11 @@ TreeEv ==
   /\ (E.log # FullLog(E.tree)) => Report("C14", "callbacks: log is not the log of the specification")
   /\ (E.out # E.ref) => Report("C14", "forms render differently")
 TInit == l = 1 /\ t = Leaf("0")
-TNext == l <= Len(Trace) /\ l' = l + 1 /\ (Form \/ Funcv \/ EntryEv \/ DictFuncEv \/ TreeEv) /\ UNCHANGED t
+\* a section of the experiment during which the library killed the process (it is executed in a child process)
+CrashEv ==
+  /\ E.ev = "Crash"
+  /\ Report("CRASH", "the library killed the process: " \o E.msg)
+TNext == l <= Len(Trace) /\ l' = l + 1 /\ (Form \/ Funcv \/ EntryEv \/ DictFuncEv \/ TreeEv \/ CrashEv) /\ UNCHANGED t
 TSpec == TInit /\ [][TNext]_<<l, t>>
 Accepted == TLCGet("stats").diameter - 1 = Len(Trace)
 =============================================================================
